@@ -29,12 +29,15 @@ def sh(cmd, cwd=None, env=None, timeout=3600):
     return p.returncode, p.stdout
 
 
+PREFIX = os.environ.get("SEEDED_PREFIX", "mut")     # scratch worktrees /tmp/<prefix>_<pid>, outputs /tmp/<prefix>_<pid>_out/<k>
+
+
 def wt_of(pid):
-    return "/tmp/mut_%s" % pid
+    return "/tmp/%s_%s" % (PREFIX, pid)
 
 
 def out_of(pid, k):
-    return "/tmp/mut_%s_out/%s" % (pid, k)
+    return "/tmp/%s_%s_out/%s" % (PREFIX, pid, k)
 
 
 def demo(pid, k, wt):
